@@ -7,6 +7,8 @@
 //   node n<idx> <hash> <name>   ids below are n<idx> for these, raw decimal hashes otherwise (0 = none)
 //   ev rup <i> | ev rdown <i> | ev up <i> <j> | ev dead <i> <j> | ev fetch <i> <j>
 //   ev late <i> <j>             the ribUpdate started for neighbour j runs only now, after the preceding `ev dead i j`
+//   ev clock <ms> | ev sync <i> <j> <s> | ev data|olddata <i> <j> <s> | ev hold <j> | ev sweep <i> <dead ms>
+//                               the sequence-number / liveness layer through the real handlers (see ProtoModel.v)
 //   ev snap <j>                 store j's current advertisement;  ev deliver <i> <j>: i processes the stored one
 //   obs <i> <dirty 0|1|x> nb=<j,j,..|-> rib=<entry;entry..|-> adv=<d/nh/cost/other;..|-> ent=<d/cost/nh;..|->
 //        entry = d/nh1/l1/nh2/l2/dirty/h=c,h=c..      (everything sorted by key)
@@ -38,6 +40,9 @@ import (
 	"github.com/named-data/ndnd/std/log"
 	"github.com/named-data/ndnd/std/ndn"
 	spec "github.com/named-data/ndnd/std/ndn/spec_2022"
+	svs_2024 "github.com/named-data/ndnd/std/ndn/svs_2024"
+	"github.com/named-data/ndnd/std/security"
+	"github.com/named-data/ndnd/std/utils"
 )
 
 // ---------------------------------------------------------------------------------------------
@@ -81,6 +86,8 @@ type world struct {
 	rounds     int              // complete rounds since the last topology change
 	roundStart int              // evc at the start of the current round
 	slots      map[int]snapshot // latest stored advertisement per sender
+	mseq       map[[2]int]uint64          // mirror of NeighborState.AdvertSeq as the protocol defines it
+	held       map[int]snapshot           // advertisement Data "in flight": stored, to arrive late
 	lastAdv    map[int]*tlv.Advertisement // the last advertisement of a router that went down (for late updates)
 	need       map[[2]int]bool  // (i, j): j announced a change (or is new to i) that i has not fetched yet
 	delivered  bool             // some stored advertisement was delivered so far
@@ -133,12 +140,14 @@ func (w *world) served(i, j int) {
 	}
 }
 
+const deadIntervalMs = 30000
+
 func newRouter(name enc.Name) *dvp.Router {
 	cfg := config.DefaultConfig()
 	cfg.Network = "/net"
 	cfg.Router = name.String()
-	cfg.AdvertisementSyncInterval_ms = 100000000
-	cfg.RouterDeadInterval_ms = 1000000000
+	cfg.AdvertisementSyncInterval_ms = 10000
+	cfg.RouterDeadInterval_ms = deadIntervalMs
 	r, err := dvp.NewRouter(cfg, &fakeEngine{timer: basic.NewTimer()})
 	if err != nil {
 		panic(err)
@@ -230,8 +239,17 @@ func (w *world) obs(i int, dS string) {
 	for k, e := range ees {
 		entS[k] = w.id(e.d) + "/" + u(e.c) + "/" + w.id(e.nh)
 	}
-	fmt.Fprintf(w.w, "obs %s %s nb=%s rib=%s adv=%s ent=%s\n", w.id(w.hash[i]), dS,
-		dashed(nbS, ","), dashed(ribS, ";"), dashed(advS, ";"), dashed(entS, ";"))
+	// the latest advertisement sequence number known per neighbour
+	sqS := make([]string, len(nbs))
+	for k, h := range nbs {
+		var sq uint64
+		if idx, ok := w.byHash[h]; ok {
+			sq, _ = r.Vf18NeighborSeq(w.names[idx])
+		}
+		sqS[k] = w.id(h) + ":" + u(sq)
+	}
+	fmt.Fprintf(w.w, "obs %s %s nb=%s rib=%s adv=%s ent=%s sq=%s\n", w.id(w.hash[i]), dS,
+		dashed(nbS, ","), dashed(ribS, ";"), dashed(advS, ";"), dashed(entS, ";"), dashed(sqS, ","))
 }
 
 func dashed(xs []string, sep string) string {
@@ -296,11 +314,23 @@ func (w *world) evRdown(i int) {
 				delete(w.need, p)
 			}
 		}
+		for p := range w.mseq {
+			if p[0] == i {
+				delete(w.mseq, p)
+			}
+		}
 		w.topoChanged()
 	}
 }
 
+// the virtual clock, for the events whose outcome depends on time (neighbour creation, pings, sweeps)
+func (w *world) evClock() {
+	fmt.Fprintf(w.w, "ev clock %d\n", time.Now().UnixMilli())
+	w.evc++
+}
+
 func (w *world) evUp(i, j int) {
+	w.evClock()
 	fmt.Fprintf(w.w, "ev up %s %s\n", w.id(w.hash[i]), w.id(w.hash[j]))
 	w.evc++
 	if w.rt[i] == nil {
@@ -309,6 +339,7 @@ func (w *world) evUp(i, j int) {
 	w.rt[i].Vf18AddNeighbor(w.names[j])
 	if !w.nbr[i][j] {
 		w.nbr[i][j] = true
+		delete(w.mseq, [2]int{i, j})
 		w.need[[2]int{i, j}] = true
 		w.topoChanged()
 	}
@@ -317,6 +348,7 @@ func (w *world) evUp(i, j int) {
 }
 
 func (w *world) evDead(i, j int) {
+	w.evClock()
 	fmt.Fprintf(w.w, "ev dead %s %s\n", w.id(w.hash[i]), w.id(w.hash[j]))
 	w.evc++
 	w.unclean = true
@@ -339,6 +371,7 @@ func (w *world) evDead(i, j int) {
 	w.rt[i].Vf18CheckDead()
 	delete(w.nbr[i], j)
 	delete(w.need, [2]int{i, j})
+	delete(w.mseq, [2]int{i, j})
 	w.settle()
 	d := w.dirtyOf(i)
 	if d == "1" {
@@ -387,6 +420,7 @@ func (w *world) evDeadMulti(i int, js []int) {
 		return
 	}
 	victim := map[int]bool{}
+	w.evClock()
 	for _, j := range js {
 		fmt.Fprintf(w.w, "ev dead %s %s\n", w.id(w.hash[i]), w.id(w.hash[j]))
 		w.evc++
@@ -410,6 +444,7 @@ func (w *world) evDeadMulti(i int, js []int) {
 		}
 		delete(w.nbr[i], j)
 		delete(w.need, [2]int{i, j})
+		delete(w.mseq, [2]int{i, j})
 	}
 	w.settle()
 	if w.dirtyOf(i) == "1" {
@@ -503,6 +538,236 @@ func (w *world) quiesce() {
 	}
 	w.obsAll()
 	fmt.Fprintf(w.w, "chkquiet\n")
+}
+
+// ---- the sequence-number / liveness layer, through the real handlers ----
+
+// router i receives a Sync Interest of j carrying sequence number s (real advertSyncOnInterest)
+func (w *world) evSync(i, j int, s uint64) {
+	if w.rt[i] == nil || i == j {
+		return
+	}
+	w.evClock()
+	fmt.Fprintf(w.w, "ev sync %s %s %d\n", w.id(w.hash[i]), w.id(w.hash[j]), s)
+	w.evc++
+	syncName, _ := enc.NameFromStr("/localhop/net/32=DV/32=ADS/32=ACT")
+	syncName = append(syncName, enc.NewVersionComponent(2))
+	sv := &svs_2024.StateVectorAppParam{StateVector: &svs_2024.StateVector{
+		Entries: []*svs_2024.StateVectorEntry{{NodeId: w.names[j], SeqNo: s}}}}
+	cfg := &ndn.InterestConfig{MustBeFresh: true, Lifetime: utils.IdPtr(time.Millisecond), Nonce: utils.IdPtr(uint64(w.evc))}
+	ei, err := spec.Spec{}.MakeInterest(syncName, cfg, sv.Encode(), nil)
+	if err != nil {
+		w.fail = "cannot build Sync Interest: " + err.Error()
+		return
+	}
+	pi, sigCov, err := spec.Spec{}.ReadInterest(enc.NewWireReader(ei.Wire))
+	if err != nil {
+		w.fail = "cannot parse Sync Interest: " + err.Error()
+		return
+	}
+	fid := uint64(100 + j)
+	w.rt[i].Vf18OnSyncInterest(ndn.InterestHandlerArgs{Interest: pi, RawInterest: ei.Wire, SigCovered: sigCov,
+		IncomingFaceId: &fid, Reply: func(enc.Wire) error { return nil }}, true)
+	key := [2]int{i, j}
+	if !w.nbr[i][j] {
+		w.nbr[i][j] = true
+		w.mseq[key] = s
+		w.need[key] = true
+		w.topoChanged()
+	} else if s > w.mseq[key] {
+		w.mseq[key] = s
+	}
+	w.settle()
+	w.obs(i, w.dirtyOf(i))
+}
+
+// advertisement Data named (j, s) arrives at i (real advertDataHandler); content: the stored advertisement of j,
+// or the one held "in flight" since an earlier moment
+func (w *world) evData(i, j int, s uint64, old bool) {
+	src := w.slots
+	kind := "data"
+	if old {
+		src = w.held
+		kind = "olddata"
+	}
+	sn, ok := src[j]
+	if !ok || w.rt[i] == nil {
+		return
+	}
+	fmt.Fprintf(w.w, "ev %s %s %s %d\n", kind, w.id(w.hash[i]), w.id(w.hash[j]), s)
+	w.evc++
+	name := append(enc.Name{}, config.Localhop...)
+	name = append(name, w.names[j]...)
+	name = append(name, enc.NewStringComponent(enc.TypeKeywordNameComponent, "DV"),
+		enc.NewStringComponent(enc.TypeKeywordNameComponent, "ADV"), enc.NewSequenceNumComponent(s))
+	ed, err := spec.Spec{}.MakeData(name, &ndn.DataConfig{ContentType: utils.IdPtr(ndn.ContentTypeBlob),
+		Freshness: utils.IdPtr(10 * time.Second)}, sn.adv.Encode(), security.NewSha256Signer())
+	if err != nil {
+		w.fail = "cannot build advertisement Data: " + err.Error()
+		return
+	}
+	data, _, err := spec.Spec{}.ReadData(enc.NewWireReader(ed.Wire))
+	if err != nil {
+		w.fail = "cannot parse advertisement Data: " + err.Error()
+		return
+	}
+	accepted := w.nbr[i][j] && w.mseq[[2]int{i, j}] == s
+	if accepted {
+		w.delivered = true
+		if sn.stamp < w.roundStart {
+			w.unclean = true
+			w.resetRounds()
+		} else {
+			w.served(i, j)
+		}
+		w.need[[2]int{i, j}] = true
+	}
+	w.rt[i].Vf18OnAdvertData(data)
+	w.settle()
+	d := w.dirtyOf(i)
+	if d == "1" {
+		w.announce(i)
+	}
+	w.obs(i, d)
+}
+
+// the advertisement last stored for j goes "in flight" (its Data is delayed)
+func (w *world) evHold(j int) {
+	if sn, ok := w.slots[j]; ok {
+		fmt.Fprintf(w.w, "ev hold %s\n", w.id(w.hash[j]))
+		w.evc++
+		w.held[j] = sn
+	}
+}
+
+// the real dead sweep with the real (virtual) clock
+func (w *world) evSweep(i int) {
+	if w.rt[i] == nil {
+		return
+	}
+	w.evClock()
+	fmt.Fprintf(w.w, "ev sweep %s %d\n", w.id(w.hash[i]), deadIntervalMs)
+	w.evc++
+	w.rt[i].Vf18CheckDead()
+	w.settle()
+	left := map[int]bool{}
+	for _, nm := range w.rt[i].Vf18Neighbors().Vf18Names() {
+		if k, ok := w.byHash[nm.Hash()]; ok {
+			left[k] = true
+		}
+	}
+	changed := false
+	for j := range w.nbr[i] {
+		if !left[j] {
+			delete(w.nbr[i], j)
+			delete(w.need, [2]int{i, j})
+			delete(w.mseq, [2]int{i, j})
+			changed = true
+			w.unclean = true
+		}
+	}
+	d := w.dirtyOf(i)
+	if d == "1" {
+		w.announce(i)
+	}
+	w.obs(i, d)
+	if changed {
+		w.topoChanged()
+	}
+}
+
+// delayed / reordered advertisement Data: i learns sequence s1 of j, the Data for s1 is delayed; j's table changes
+// (a neighbour of j may be lost meanwhile), j announces s2, that fetch completes; then the s1 Data arrives
+func (w *world) seqScenario() {
+	ps := w.pairs()
+	if len(ps) == 0 {
+		return
+	}
+	p := ps[w.r.Intn(len(ps))]
+	i, j := p[0], p[1]
+	if w.rt[j] == nil {
+		return
+	}
+	s1 := w.mseq[[2]int{i, j}] + 1 + uint64(w.r.Intn(3))
+	w.evSync(i, j, s1)
+	w.evSnap(j)
+	w.evHold(j) // the Data for s1 is in flight
+	if w.r.Intn(2) == 0 {
+		w.evData(i, j, s1, false) // sometimes a timely copy arrives as well
+	}
+	// j's table changes
+	switch w.r.Intn(3) {
+	case 0:
+		ks := []int{}
+		for k := range w.nbr[j] {
+			if k != i {
+				ks = append(ks, k)
+			}
+		}
+		sort.Ints(ks)
+		if len(ks) > 0 {
+			k := ks[w.r.Intn(len(ks))]
+			if w.r.Intn(2) == 0 {
+				w.evRdown(k)
+			}
+			w.evDead(j, k)
+		}
+	case 1:
+		w.someFetches(2 + w.r.Intn(6))
+	}
+	s2 := s1 + 1 + uint64(w.r.Intn(2))
+	if w.r.Intn(5) != 0 {
+		w.evSync(i, j, s2)
+		if w.rt[j] != nil {
+			w.evSnap(j)
+			w.evData(i, j, s2, false)
+		}
+	}
+	w.someFetches(w.r.Intn(4))
+	w.evData(i, j, s1, true)           // the delayed Data
+	w.evData(i, j, s2+5, w.r.Intn(2) == 0) // Data for a sequence number never announced
+	if w.r.Intn(3) == 0 {
+		w.evSync(i, j, s1) // an old Sync Interest arrives late: the sequence number must not go back
+		w.evData(i, j, s1, true)
+	}
+}
+
+// heartbeats: every neighbour of i keeps sending Sync Interests with an UNCHANGED sequence number; time passes;
+// the sweep must not remove anybody who was heard from within the dead interval
+func (w *world) pingScenario() {
+	live := []int{}
+	for i := 0; i < w.n; i++ {
+		if w.rt[i] != nil && len(w.nbr[i]) > 0 {
+			live = append(live, i)
+		}
+	}
+	if len(live) == 0 {
+		return
+	}
+	i := live[w.r.Intn(len(live))]
+	js := []int{}
+	for j := range w.nbr[i] {
+		js = append(js, j)
+	}
+	sort.Ints(js)
+	silent := -1
+	if w.r.Intn(3) == 0 {
+		silent = js[w.r.Intn(len(js))] // this one really stops talking
+	}
+	for round := 0; round < 2+w.r.Intn(2); round++ {
+		time.Sleep(time.Duration(5000+w.r.Intn(20000)) * time.Millisecond)
+		for _, j := range js {
+			if j != silent && w.nbr[i][j] {
+				w.evSync(i, j, w.mseq[[2]int{i, j}]) // same sequence number as known: a pure heartbeat
+			}
+		}
+		if w.r.Intn(2) == 0 {
+			time.Sleep(time.Duration(w.r.Intn(25000)) * time.Millisecond)
+			w.evSweep(i)
+		}
+	}
+	time.Sleep(time.Duration(w.r.Intn(29000)) * time.Millisecond)
+	w.evSweep(i)
 }
 
 // one transfer for the pair: atomic, or a stale advertisement generated earlier in the current round
@@ -669,7 +934,11 @@ func (w *world) converge(clean bool) {
 }
 
 func (w *world) fault(edges [][2]int) {
-	switch w.r.Intn(7) {
+	switch w.r.Intn(9) {
+	case 7:
+		w.seqScenario()
+	case 8:
+		w.pingScenario()
 	case 6: // a router loses all its links at once: one sweep removes every neighbour
 		i := w.r.Intn(w.n)
 		js := []int{}
@@ -828,7 +1097,7 @@ func allConnected(n int) [][][2]int {
 func runCase(t *testing.T, out *bufio.Writer, r *rand.Rand, k int, kind string, n int, edges [][2]int, faults int) string {
 	fail := ""
 	synctest.Test(t, func(t *testing.T) {
-		w := &world{t: t, w: out, r: r, n: n, byHash: map[uint64]int{}, slots: map[int]snapshot{}, pending: map[[2]int]bool{}, need: map[[2]int]bool{}}
+		w := &world{t: t, w: out, r: r, n: n, byHash: map[uint64]int{}, slots: map[int]snapshot{}, pending: map[[2]int]bool{}, need: map[[2]int]bool{}, mseq: map[[2]int]uint64{}, held: map[int]snapshot{}}
 		// random router names: the hash order (the tie-break key) is unrelated to the index order
 		for len(w.names) < n {
 			nm, _ := enc.NameFromStr(fmt.Sprintf("/net/r%d", r.Intn(1000000)))
@@ -964,7 +1233,7 @@ func TestReplay(t *testing.T) {
 	out := bufio.NewWriterSize(f, 1<<20)
 	defer out.Flush()
 	synctest.Test(t, func(t *testing.T) {
-		w := &world{t: t, w: out, byHash: map[uint64]int{}, slots: map[int]snapshot{}, pending: map[[2]int]bool{}, need: map[[2]int]bool{}}
+		w := &world{t: t, w: out, byHash: map[uint64]int{}, slots: map[int]snapshot{}, pending: map[[2]int]bool{}, need: map[[2]int]bool{}, mseq: map[[2]int]uint64{}, held: map[int]snapshot{}}
 		idx := func(s string) int {
 			k, _ := strconv.Atoi(strings.TrimPrefix(s, "n"))
 			return k
@@ -1031,6 +1300,23 @@ func TestReplay(t *testing.T) {
 					}
 				case "fetch":
 					w.evFetch(idx(p[2]), idx(p[3]))
+				case "clock":
+					// the replay keeps the virtual clock of the recorded run
+					if t, err := strconv.ParseInt(p[2], 10, 64); err == nil {
+						if d := t - time.Now().UnixMilli(); d > 0 {
+							time.Sleep(time.Duration(d) * time.Millisecond)
+						}
+					}
+				case "sync":
+					sq, _ := strconv.ParseUint(p[4], 10, 64)
+					w.evSync(idx(p[2]), idx(p[3]), sq)
+				case "data", "olddata":
+					sq, _ := strconv.ParseUint(p[4], 10, 64)
+					w.evData(idx(p[2]), idx(p[3]), sq, p[1] == "olddata")
+				case "hold":
+					w.evHold(idx(p[2]))
+				case "sweep":
+					w.evSweep(idx(p[2]))
 				case "snap":
 					w.evSnap(idx(p[2]))
 				case "deliver":
